@@ -1,33 +1,57 @@
 """link-type tables and SCMP codes of the pocketscion router, valid_next_seg of the combinator
--> Gen/NetworkTables.v   (src, need, emit, missing, re are injected by tools/gen.py)"""
+-> Gen/NetworkTables.v   (src, need, expect, emit, missing, re are injected by tools/gen.py)
+
+need   = tables / flags the model and the proofs import (extracted tolerantly);
+expect = mirrored statements whose behaviour the simulator-driven harness observes."""
 
 RLT = {"LinkToCore": 0, "LinkToParent": 1, "LinkToChild": 2, "LinkToPeer": 3}
 SLT = {"Peer": 0, "Parent": 1, "Child": 2, "Core": 3}
+
+
+def _block_after(text, start_rx):
+    """text of the brace block that follows the first match of start_rx (which must end just
+    before or at the opening brace); None if not found"""
+    m = re.search(start_rx, text)
+    if not m:
+        return None
+    i = text.find("{", m.end() - 1)
+    if i < 0:
+        return None
+    depth, j = 0, i
+    while j < len(text):
+        if text[j] == "{":
+            depth += 1
+        elif text[j] == "}":
+            depth -= 1
+            if depth == 0:
+                return text[i + 1:j]
+        j += 1
+    return None
 
 
 def generate():
     # ---- simulator.rs: ScionLinkType -> AsRoutingLinkType in the lookup closure
     rel = "crates/pocketscion/src/network/scion/simulator.rs"
     t = src(rel)
-    pairs = re.findall(r"ScionLinkType::(\w+) => AsRoutingLinkType::(\w+),", t)
+    pairs = re.findall(r"ScionLinkType::(\w+)\s*=>\s*AsRoutingLinkType::(\w+)", t)
     if len(pairs) != 4 or {a for a, _ in pairs} != set(SLT):
         missing.append(f"{rel}: ScionLinkType -> AsRoutingLinkType match (4 arms)")
         pairs = []
-    need(t, r"is_up: link\.is_up,", "interface state takes is_up from the link", rel)
-    need(t, r"self\.current_as = link_partner\.isd_as;\s*self\.current_ingress_interface_id = link_partner\.if_id;",
-         "next_step continues at the link partner", rel)
+    expect(t, r"is_up\s*:\s*link\.is_up", "interface state takes is_up from the link", rel)
+    expect(t, r"self\.current_as\s*=\s*link_partner\.isd_as", "next_step continues at the link partner (AS)", rel)
+    expect(t, r"self\.current_ingress_interface_id\s*=\s*link_partner\.if_id", "next_step continues at the link partner (interface)", rel)
     link_map = "; ".join(f"({SLT[a]}, {RLT[b]})" for a, b in pairs if b in RLT)
 
     # ---- standard.rs: validate_segment_change link-type table
     rel = "crates/pocketscion/src/network/scion/routing/spec/standard.rs"
     t = src(rel)
-    m = need(t, r"let segment_change_valid = match \(in_link_type, out_link_type\) \{(.*?)\n        \};",
-             "validate_segment_change match block", rel, re.S)
+    blk = _block_after(t, r"match\s*\(\s*in_link_type\s*,\s*out_link_type\s*\)\s*\{")
     arms, default = [], "false"
-    if m:
-        blk = m.group(1)
-        arms = re.findall(r"\(LinkType::(\w+), LinkType::(\w+)\) => (true|false),", blk)
-        d = re.search(r"\n\s*_ => (true|false),", blk)
+    if blk is None:
+        missing.append(f"{rel}: validate_segment_change: match (in_link_type, out_link_type) block")
+    else:
+        arms = re.findall(r"\(\s*(?:\w+::)*(LinkTo\w+)\s*,\s*(?:\w+::)*(LinkTo\w+)\s*\)\s*=>\s*(true|false)\s*,", blk)
+        d = re.search(r"(?:^|\n)\s*_\s*=>\s*(true|false)\s*,", blk)
         if not d:
             missing.append(f"{rel}: default arm of the segment change match")
         else:
@@ -36,19 +60,20 @@ def generate():
         n_arrows = len(re.findall(r"=>", blk))
         if n_arrows != len(arms) + 1:
             missing.append(f"{rel}: unrecognised arm in the segment change match ({n_arrows} arrows, {len(arms)} parsed)")
-    need(t, r"let in_link_type = \(self\.interface_link_type_lookup\)\(current_hop_ingress\)", "in link = lookup(current hop ingress)", rel)
-    need(t, r"let out_link_type = \(self\.interface_link_type_lookup\)\(next_hop_egress\)", "out link = lookup(next hop egress)", rel)
-    need(t, r"if info_field\.timestamp\(\) > self\.now\.timestamp_secs\(\)", "future timestamp check", rel)
-    need(t, r"if hop_field\.expiry_timestamp\(info_field\) < self\.now\.timestamp_secs\(\)", "expiry check", rel)
-    need(t, r"if egress_interface != self\.current_interface_id", "egress interface check", rel)
-    need(t, r"if !self\.segment_changed\.get\(\)\s*&& self\.current_interface_id != 0\s*&& ingress_interface != self\.current_interface_id",
-         "ingress interface check (strict; exempt after a validated segment change)", rel)
-    need(t, r"true => \{\s*self\.segment_changed\.set\(true\);\s*Ok\(\(\)\)\s*\}", "segment change recorded in the validator", rel)
+    # mirrored statements of the validator: observed by the harness (soft)
+    expect(t, r"in_link_type\s*=\s*\(?\s*self\.interface_link_type_lookup\s*\)?\s*\(\s*current_hop_ingress\s*\)", "in link = lookup(current hop ingress)", rel)
+    expect(t, r"out_link_type\s*=\s*\(?\s*self\.interface_link_type_lookup\s*\)?\s*\(\s*next_hop_egress\s*\)", "out link = lookup(next hop egress)", rel)
+    expect(t, r"info_field\.timestamp\(\)\s*>\s*self\.now\.timestamp_secs\(\)", "future timestamp check", rel)
+    expect(t, r"hop_field\.expiry_timestamp\(\s*info_field\s*\)\s*<\s*self\.now\.timestamp_secs\(\)", "expiry check", rel)
+    expect(t, r"egress_interface\s*!=\s*self\.current_interface_id", "egress interface check", rel)
+    expect(t, r"!\s*self\.segment_changed\.get\(\)\s*&&\s*self\.current_interface_id\s*!=\s*0\s*&&\s*ingress_interface\s*!=\s*self\.current_interface_id",
+           "ingress interface check (strict; exempt after a validated segment change)", rel)
+    expect(t, r"self\.segment_changed\.set\(\s*true\s*\)", "segment change recorded in the validator", rel)
     arms_s = "; ".join(f"({RLT[a]}, {RLT[b]}, {v})" for a, b, v in arms if a in RLT and b in RLT)
 
     # ---- SCMP code of every routing error (to_scmp_error)
     def code_of(variant, what):
-        mm = need(t, r"Self::" + variant + r"\b[^=]*?=> \{(.*?)\n            \}", what, rel, re.S)
+        mm = need(t, r"Self::" + variant + r"\b[^=]*?=>\s*\{(.*?)\n            \}", what, rel, re.S)
         if not mm:
             return None
         return mm.group(1)
@@ -70,13 +95,14 @@ def generate():
         b = code_of(variant, f"to_scmp_error arm {variant}")
         if b is None:
             return (0, 0)
-        c = re.search(r"true => ScmpParameterProblemCode::(\w+),\s*false => ScmpParameterProblemCode::(\w+),", b)
+        c = re.search(r"true\s*=>\s*ScmpParameterProblemCode::(\w+)\s*,\s*false\s*=>\s*ScmpParameterProblemCode::(\w+)", b) or \
+            re.search(r"if\s+\*?cons_dir\s*\{\s*ScmpParameterProblemCode::(\w+)\s*\}\s*else\s*\{\s*ScmpParameterProblemCode::(\w+)\s*\}", b)
         if not c or c.group(1) not in codes or c.group(2) not in codes:
             missing.append(f"{rel}: to_scmp_error arm {variant}: expected a cons_dir match")
             return (0, 0)
         return (int(codes[c.group(1)]), int(codes[c.group(2)]))
-    need(t, r"Self::AdvanceFailed\(_advance_error\) => None,", "AdvanceFailed has no SCMP reply", rel)
-    need(t, r"Self::EgressInterfaceDown \{[^}]*\} => \{\s*Some\(\s*ScmpExternalInterfaceDown::new\(", "EgressInterfaceDown -> ExternalInterfaceDown", rel)
+    expect(t, r"Self::AdvanceFailed\([^)]*\)\s*=>\s*None", "AdvanceFailed has no SCMP reply", rel)
+    expect(t, r"Self::EgressInterfaceDown\s*\{[^}]*\}\s*=>\s*\{?\s*Some\(\s*ScmpExternalInterfaceDown::new\(", "EgressInterfaceDown -> ExternalInterfaceDown", rel)
     c_nonlocal = single("NonLocalDelivery")
     c_future, c_expired = single("FutureTimestamp"), single("SegmentExpired")
     c_mac, c_seg, c_alert = single("InvalidMacError"), single("InvalidSegmentChange"), single("InvalidScmpAlert")
@@ -85,15 +111,15 @@ def generate():
     if u_in != i_in or u_eg != i_eg:
         missing.append(f"{rel}: Unknown/Invalid interface errors no longer share their SCMP codes")
     sp = src("crates/pocketscion/src/network/scion/routing/spec.rs")
-    need(sp, r"if local_as != dst_ia \{\s*return Err\(ScmpParameterProblem::new\(\s*ScmpParameterProblemCode::NonLocalDelivery,",
-         "route: ForwardLocal only in the destination AS", "routing/spec.rs")
+    expect(sp, r"local_as\s*!=\s*dst_ia", "route: ForwardLocal only in the destination AS", "routing/spec.rs")
+    expect(sp, r"ScmpParameterProblemCode::NonLocalDelivery", "route: NonLocalDelivery reply", "routing/spec.rs")
 
     # ---- combinator: valid_next_seg
     rel = "crates/libs/sciparse/src/scion/path/combinator/graph.rs"
     g = src(rel)
-    need(g, r"\[\] => true,", "valid_next_seg: first segment always allowed", rel)
-    need(g, r"\[last\] => \{[^}]*last\.segment\.is_non_core\(\) \|\| segment\.is_non_core\(\)\s*\}", "valid_next_seg: two segments", rel, re.S)
-    need(g, r"\[first, second\] => \{[^}]*first\.segment\.is_non_core\(\) && second\.segment\.is_core\(\) && segment\.is_non_core\(\)\s*\}",
+    need(g, r"\[\]\s*=>\s*true", "valid_next_seg: first segment always allowed", rel)
+    need(g, r"\[\s*(\w+)\s*\]\s*=>\s*\{?[^}]*?\1\.segment\.is_non_core\(\)\s*\|\|\s*segment\.is_non_core\(\)", "valid_next_seg: two segments", rel, re.S)
+    need(g, r"\[\s*(\w+)\s*,\s*(\w+)\s*\]\s*=>\s*\{?[^}]*?\1\.segment\.is_non_core\(\)\s*&&\s*\2\.segment\.is_core\(\)\s*&&\s*segment\.is_non_core\(\)",
          "valid_next_seg: three segments", rel, re.S)
     rows = []
     B = {True: "true", False: "false"}
@@ -110,7 +136,7 @@ def generate():
     peer_next = "false"
     if m:
         body = m.group(0)
-        if re.search(r"for peer in &mut self\.peer_entries \{\s*peer\.hop_field\.mac =\s*peer\.hop_field\s*\.calculate_mac\(mac_beta, ", body):
+        if re.search(r"for\s+(\w+)\s+in\s+&mut\s+self\.peer_entries\s*\{\s*\1\.hop_field\.mac\s*=\s*\1\.hop_field\s*\.calculate_mac\(\s*mac_beta\s*,", body):
             peer_next = "false"     # peer MACs over beta_i (as the hop entry)
         elif re.search(r"let peer_beta = mac_beta_step\(mac_beta, \*?self\.hop_entry\.hop_field\.mac\.as_bytes\(\)\);", body) and \
                 re.search(r"\.calculate_mac\(peer_beta, ", body):
